@@ -696,15 +696,17 @@ def sys_line(case, sim, srv, out):
 
 
 def drive_chunks(ctx, lines, parts=6):
-    """ctx.drive on contiguous chunks, side by side (the driver is a one-line-in, one-line-out filter)"""
+    """ctx.drive on interleaved slices, side by side (the driver is a one-line-in, one-line-out filter)"""
     import concurrent.futures
-    size = max(1, -(-len(lines) // parts))
-    chunks = [lines[i:i + size] for i in range(0, len(lines), size)]
+    chunks = [lines[k::parts] for k in range(parts)]
     with concurrent.futures.ThreadPoolExecutor(max_workers=parts) as ex:
-        outs = list(ex.map(lambda ch: ctx.drive(DRIVER, ch, "sdo"), chunks))
+        outs = list(ex.map(lambda ch: ctx.drive(DRIVER, ch, "sdo") if ch else [], chunks))
     if any(o is None for o in outs):
         return None
-    return [l for o in outs for l in o]
+    res = [None] * len(lines)
+    for k, o in enumerate(outs):
+        res[k::parts] = o
+    return res
 
 
 def known_witnesses():
